@@ -131,7 +131,7 @@ func loadRun(L *LState, src string, nret int) error {
 }
 
 // numPool: non-integral, huge and boundary numbers that the 32-bit integer class does not cover.
-var numPool = []float64{0.5, 9223372036854775808, -1.5, 4294967296, 2.5, 1e300, -1e300, 9007199254740992, -9223372036854775808, 5e-324}
+var numPool = []float64{1.5, 2.5, 0.5, 9223372036854775808, -1.5, 4294967296, 1e300, -1e300, 9007199254740992, -9223372036854775808, 5e-324}
 
 // symNum returns a symbolic number from two classes: any 32-bit integer value (exact in float64,
 // decided by bit-vector reasoning) or one of numPool; with full=true also an arbitrary non-NaN
